@@ -197,36 +197,67 @@ def check_from_str(chk, cfg, b):
     paths, _ = an.analyse(cfg, b)
     what = "Kmer::from_str"
     slen = ("call", "core::str::<impl str>::len", (P(1),), None)
-    errs = [p for p in paths if p.end == "return" and opt_kind(p.ret)[0] == "Err"]
-    others = [p for p in paths if p.end == "return" and opt_kind(p.ret)[0] != "Err"]
+    rets = [p for p in paths if p.end == "return"]
+    errs = [p for p in rets if opt_kind(p.ret)[0] == "Err" and err_payload(p.ret, "MismatchedLength") is not None]
+    others = [p for p in rets if p not in errs]
     # length test first: Err(MismatchedLength(K, s.len())) exactly when s.len() != K
     ok = len(errs) == 1 and gset(errs[0].guards) == {cmp(slen, "Ne", K)} and not errs[0].others() and \
         err_payload(errs[0].ret, "MismatchedLength") == (canon(K), canon(slen))
     chk.ob("G08/len", what, ok, "length refusal: %s; expected Err(MismatchedLength(K, s.len())) exactly when s.len() != K" % [p.describe()[:200] for p in errs], b["span"])
-    # all other paths are under s.len() == K and go through the strict parser with `?`, then try_from
+    # all other paths are under s.len() == K and depend on the strict parser's result R only: its error is returned as it is
+    # (`?`, `and_then`, a `match`), its sequence goes to try_from
     parse = re.compile(r"^<seq::Seq<A> as std::str::FromStr>::from_str$|^<seq::Seq<A> as std::convert::TryFrom<&str>>::try_from$")
-    good = True
+    R = None
+    for p in others:
+        for g in p.guards:
+            if g[0] == "sw" and isinstance(g[1], tuple) and g[1][0] == "discr":
+                subj = g[1][1]
+                if isinstance(subj, tuple) and subj[0] == "call" and short(subj[1]) == "branch" and len(subj[2]) == 1:
+                    subj = subj[2][0]
+                if an.is_call(subj, parse, (P(1),)):
+                    R = subj[:3] + (None,)
+    good = R is not None
     desc = []
     seen_ok = seen_res = False
+    BR = ("call", "<std::result::Result<seq::Seq<A>, error::ParseBioError> as std::ops::Try>::branch", (R,), None) if R else None
+
+    def strip(t):
+        return t[:3] + (None,) if isinstance(t, tuple) and t[0] == "call" and len(t) > 3 else t
+
+    def same(t, u):
+        return strip(t) == strip(u)
     for p in others:
         desc.append(p.describe()[:240])
+        if not good:
+            break
         if cmp(slen, "Eq", K) not in gset(p.guards):
             good = False
-        br = [x for x in p.calls if short(x[0]) == "branch"]
-        if len(br) != 1 or not an.is_call(br[0][1][0], parse, (P(1),)):
-            good = False
-            continue
-        if an.is_call(p.ret, re.compile(r"::from_residual$")):
+        # which state of R is this path under?
+        state = None
+        for g in p.guards:
+            if g[0] == "sw" and isinstance(g[1], tuple) and g[1][0] == "discr" and g[2] == "==":
+                subj = g[1][1]
+                if same(subj, R):
+                    state = "ok" if g[3] == 0 else "err"
+                elif isinstance(subj, tuple) and subj[0] == "call" and short(subj[1]) == "branch" and same(subj[2][0], R):
+                    state = "ok" if g[3] == 0 else "err"
+        t = p.ret
+        if state == "err":
+            # the parser's own error: from_residual(Break(..)) of `?`, or Err(e) rebuilt from R's Err payload
+            via_q = an.is_call(t, re.compile(r"::from_residual$")) and "Break" in show(t[2][0])
+            k, pay = opt_kind(t)
+            rebuilt = k == "Err" and isinstance(pay, tuple) and pay[0] in ("F", "proj", "field") and "Err" in show(pay) and show(R) in show(pay)
+            good = good and (via_q or rebuilt)
             seen_res = True
-        elif an.is_call(p.ret, re.compile(r"^<kmer::Kmer<A, K, S> as std::convert::TryFrom<&seq::slice::SeqSlice<A>>>::try_from$")):
-            a = p.ret[2][0]
-            # argument: content of the parsed sequence
-            good = good and a[0] == "seqview" and "Continue" in show(a)
+        elif state == "ok" and an.is_call(t, re.compile(r"^<kmer::Kmer<A, K, S> as std::convert::TryFrom<&seq::slice::SeqSlice<A>>>::try_from$")):
+            a = t[2][0]
+            # argument: content of the parsed sequence (the Ok / Continue payload of R)
+            good = good and a[0] == "seqview" and show(R) in show(a) and ("Continue" in show(a) or " as Ok)" in show(a))
             seen_ok = True
         else:
             good = False
     chk.ob("G08/parse", what, good and seen_ok and seen_res and len(others) == 2,
-           "after the length test from_str must be `Seq::from_str(s)?` then Kmer::try_from(content): %s" % desc, b["span"])
+           "after the length test from_str must be the strict parse of s - its error returned unchanged, its sequence handed to Kmer::try_from(content): %s" % desc, b["span"])
 
 
 def check_display(chk, cfg, b):
